@@ -135,10 +135,14 @@ def rule_a(repo, chk):
     need(len(apps) >= 1, 'C03.a: _fire does not append to the queue')
 
     def ident_edge(e):
-        if e.src.kind != 'test' or e.kind != 'T':
+        # the edge on which "calling thread == owner thread" is known: `==` true or `!=` false
+        if e.src.kind != 'test' or e.kind not in ('T', 'F'):
             return False
         s = src(e.src.ast)
-        return ('get_ident()' in s or 'current_thread()' in s) and '==' in s
+        if not ('get_ident()' in s or 'current_thread()' in s):
+            return False
+        fact = pat.compare_fact(e.src.ast, e.kind)
+        return fact is not None and fact[1] in ('==', 'is')
 
     unlocked = [n for n in apps if not _under(n, 'self._lock')]
     locked = [n for n in apps if _under(n, 'self._lock')]
